@@ -21,6 +21,9 @@ def win_len(c, s, n):
 
 
 def register(reg):
+    reg.replay["_operations._slice:Slice.then"] = lambda *a: _replay_then(*a)
+    # class invariant established by Slice.__post_init__ (proved at every construction site)
+    reg.object_invariant("Slice", "wf", lambda c, o: wf_slice(c, o))
     k = reg.contract("_operations._slice:Slice.then", properties=("C05",))
     k.req("wf-self", lambda c: wf_slice(c, c.self))
     k.req("wf-next", lambda c: wf_slice(c, c.next))
@@ -50,7 +53,7 @@ def _replay_then(model, clause, res):
 
     return f"""import sys; sys.path.insert(0, '/verif/replay')
 from lib import *
-MODEL = json.loads({json.dumps(json.dumps(model))}) if False else {model!r}
+MODEL = {model!r}
 a, b = build(MODEL['self']), build(MODEL['next'])
 print('inputs:', a, b)
 try:
@@ -65,9 +68,3 @@ not_reproduced()
 """
 
 
-_prev_register = register
-
-
-def register(reg):  # noqa: F811
-    _prev_register(reg)
-    reg.replay["_operations._slice:Slice.then"] = _replay_then
